@@ -431,7 +431,7 @@ func runJournalMut(c *pbt.Case, p JournalMutPlan) {
 			}
 		}
 		if len(journal) >= 28 { // a (possibly forged) header names an original size; honouring it is legal
-			if v := int64(binary.BigEndian.Uint32(journal[16:])) * int64(p.PageSize); v > bound && v <= 1<<31 {
+			if v := int64(binary.BigEndian.Uint32(journal[16:])) * int64(p.PageSize); v > bound { // (whatever it says: SQLite trusts that field, it is not covered by any checksum)
 				bound = v
 			}
 		}
